@@ -1,7 +1,7 @@
 SPECIFICATION Spec
 CONSTANTS
   Family = "rawevent"
-  Versions <- VersionsQuick
+  Versions <- VersionsThree
   TypesC <- TypesTwo
   Depth = "core"
   FieldSet = "core"
